@@ -28,6 +28,7 @@ EXPLANATION += ' (R3, round 8) session accounting is read off one evaluated sess
 EXPLANATION += " Round 9: R4 also carries C02.R10 (the scan range of one author's key prefix evaluated on concrete ids and prefixes)."
 EXPLANATION += ' Round 10: R10 = C08.R5 (what is fingerprinted and sent is everything held: the plain scan yields every row, deletion markers included).'
 EXPLANATION += ' Round 11: (R11) the frame limit of the session codec is not below 2^30 (constant rule).'
+EXPLANATION += ' (R12, round 12) = C16.R15 (no per-document memo in the store outlives the document) and C08.R3 (the range fingerprint is the xor-fold over the range scan, whatever was asked before).'
 
 
 def r1(ctx):
@@ -619,6 +620,13 @@ def r11(ctx):
     ctx.check(isinstance(v, int) and v >= 1 << 30, "C01.R11", "net::codec::MAX_MESSAGE_SIZE", "frame-limit-not-lowered", "MAX_MESSAGE_SIZE = %s; spec: >= 2^30" % v, c["sp"])
     ctx.floor("C01.R11", 1)
 
+def r12(ctx):
+    """what a session compares and sends is computed from the entries held *now*: no per-document memo in the store survives the
+    document (C16.R15), and the range fingerprint is the xor-fold over the range scan on every call (C08.R3)"""
+    from . import C16, C08
+    C16.mem_state(ctx, "C01.R12")
+    ctx.share("C01.R12", C08.r3, "C08.R3", keep=lambda k: "get_fingerprint" in k, floor=6)
+
 def run(ctx):
     ctx.run_rule("C01.R1", r1)
     ctx.run_rule("C01.R2", r2)
@@ -631,3 +639,4 @@ def run(ctx):
     ctx.run_rule("C01.R9", r9)
     ctx.run_rule("C01.R10", r10)
     ctx.run_rule("C01.R11", r11)
+    ctx.run_rule("C01.R12", r12)
